@@ -292,6 +292,8 @@ func firstPacketAF(r *rand.Rand, hdrLen int, big bool) *astits.PacketAdaptationF
 	}
 	body := 1 + r.IntN(max)
 	switch r.IntN(6) {
+	case 2:
+		body = max + 1 // leaves exactly the header: the first packet carries no payload byte at all
 	case 0:
 		body = max // leaves exactly the header + 1 byte
 	case 1:
@@ -742,7 +744,24 @@ func remuxScenario(r *rand.Rand, fromMuxer bool) (ops []HOp, units int, parsedEn
 		if !known {
 			pids = append(pids, d.PID)
 		}
-		data = append(data, HOp{Kind: "data", PID: d.PID, Data: &astits.MuxerData{PID: d.PID, AdaptationField: d.FirstPacket.AdaptationField, PES: d.PES}})
+		af := d.FirstPacket.AdaptationField
+		if af != nil && r.IntN(3) == 0 {
+			// what astits-es-split does with the parsed field: flags are cleared, the values they announced are left where they are
+			// (it sets HasPCR again only when it has a new clock to put there). A cleared flag wins: the part is not written
+			af = mon.Clone(af)
+			if r.IntN(2) == 0 {
+				af.HasPCR = false
+			}
+			switch r.IntN(4) {
+			case 0:
+				af.HasOPCR = false
+			case 1:
+				af.HasTransportPrivateData = false
+			case 2:
+				af.HasAdaptationExtensionField = false
+			}
+		}
+		data = append(data, HOp{Kind: "data", PID: d.PID, Data: &astits.MuxerData{PID: d.PID, AdaptationField: af, PES: d.PES}})
 	}
 	for _, p := range pids {
 		es := &astits.PMTElementaryStream{StreamType: types[p]}
